@@ -27,7 +27,7 @@ func init() {
 			"(R-IFACEEQ) == / != on two interface values is reached only after every operand passed a comparability guard. " +
 			"(R-BOOLARITY) an and/or node is never built with fewer than two operands (the engine can decide them without calling the operator, so the arity error is enforced where the node is built; D14). NOT decided: numeric results (wrap-around and MinInt64/-1 are Go's int64 semantics for the built-in operators the rule checks are used), and the n-ary eq loop's value beyond the operands it compares.",
 		Run:       runC18,
-		Witnesses: c18Witnesses,
+		Witnesses: append(append(append([]Witness{}, valueWalkWitnesses...), wave9Witnesses18...), c18Witnesses...),
 	})
 }
 
@@ -45,6 +45,9 @@ func runC18(w *World, r *Report) {
 	// on "bool operator and not `and`" meaning `or`
 	rulePairBool(w, r)
 	ruleFlatten(w, r)
+	// ... and only if the folding pass never drops the operator itself: a type error of and/or exists only as long
+	// as the node does (fold only on success, or on a deciding constant)
+	runC10Core(w, r)
 }
 
 // ---- R-ALIAS ----------------------------------------------------------------
@@ -1271,17 +1274,228 @@ func checkComparableGuard(w *World) (bool, string) {
 			}
 			continue
 		}
-		// dynamic: must be reflect.TypeOf(p).Comparable()
+		// dynamic: a value-level walk H(reflect.ValueOf(p)). The type-level answer reflect.TypeOf(p).Comparable() is NOT
+		// enough: an array or struct type with interface elements is comparable, a value of it that holds a slice or a
+		// map makes == panic (defect D17)
 		call, ok := v.(*ssa.Call)
-		if !ok || !call.Call.IsInvoke() || nm(call.Call.Method) != "Comparable" || call.Call.Value.Type().String() != "reflect.Type" {
+		if !ok {
 			return false, "isComparable returns " + describe(v) + " at " + w.InstrPos(ret)
 		}
-		inner, ok := call.Call.Value.(*ssa.Call)
-		if !ok || calleeFullName(&inner.Call) != "reflect.TypeOf" || len(inner.Call.Args) != 1 || unwrapConv(inner.Call.Args[0]) != p {
-			return false, "Comparable() is not asked of reflect.TypeOf(operand)"
+		if call.Call.IsInvoke() && nm(call.Call.Method) == "Comparable" {
+			return false, "isComparable answers with reflect.Type.Comparable() at " + w.InstrPos(ret) + ": comparability of the type does not make == on the value safe (an array or struct with interface elements can hold a slice)"
+		}
+		h := call.Call.StaticCallee()
+		if h == nil || !w.InPkg(h) || len(call.Call.Args) != 1 {
+			return false, "isComparable returns " + describe(v) + " at " + w.InstrPos(ret)
+		}
+		inner, ok := call.Call.Args[0].(*ssa.Call)
+		if !ok || calleeFullName(&inner.Call) != "reflect.ValueOf" || len(inner.Call.Args) != 1 || unwrapConv(inner.Call.Args[0]) != p {
+			return false, "the value-level walk is not applied to reflect.ValueOf(operand)"
+		}
+		if okH, why := checkValueWalk(w, h); !okH {
+			return false, why
 		}
 	}
-	return true, "isComparable is true only for nil, a successful test against a comparable basic type, or reflect.TypeOf(v).Comparable()"
+	return true, "isComparable is true only for nil, a successful test against a comparable basic type, or a value-level walk that refuses slices, maps and funcs at every depth"
+}
+
+// checkValueWalk verifies H(v reflect.Value) bool: H answers true only when v's kind is none of slice, map, func,
+// and — for the kinds that contain other values (interface, array, struct) — only after H answered true for every
+// contained value.
+func checkValueWalk(w *World, h *ssa.Function) (bool, string) {
+	if len(h.Params) != 1 || h.Params[0].Type().String() != "reflect.Value" {
+		return false, w.Name(h) + " does not take one reflect.Value"
+	}
+	pv := ssa.Value(h.Params[0])
+	const (
+		kArray, kFunc, kInterface, kMap, kSlice, kStruct = 17, 19, 20, 21, 23, 25
+	)
+	isKindOfP := func(v ssa.Value) bool {
+		c, ok := unwrapConv(v).(*ssa.Call)
+		return ok && calleeFullName(&c.Call) == "(reflect.Value).Kind" && len(c.Call.Args) == 1 && c.Call.Args[0] == pv
+	}
+	// kinds still possible under a list of facts (nil = no kind test seen)
+	possible := func(facts []Fact) map[int64]bool {
+		all := map[int64]bool{}
+		for k := int64(0); k <= 26; k++ {
+			all[k] = true
+		}
+		for _, f := range facts {
+			bo, ok := f.Cond.(*ssa.BinOp)
+			if !ok || bo.Op != token.EQL || !isKindOfP(bo.X) {
+				continue
+			}
+			c, okc := constInt(bo.Y)
+			if !okc {
+				continue
+			}
+			if f.Truth {
+				for k := range all {
+					if k != c {
+						delete(all, k)
+					}
+				}
+			} else {
+				delete(all, c)
+			}
+		}
+		return all
+	}
+	// a recursive call on a value contained in p: H(p.Elem()), H(p.Index(i)), H(p.Field(i))
+	containedCall := func(v ssa.Value, accessor string) bool {
+		c, ok := v.(*ssa.Call)
+		if !ok || c.Call.StaticCallee() != h || len(c.Call.Args) != 1 {
+			return false
+		}
+		a, ok := c.Call.Args[0].(*ssa.Call)
+		return ok && calleeFullName(&a.Call) == "(reflect.Value)."+accessor && len(a.Call.Args) >= 1 && a.Call.Args[0] == pv
+	}
+	// loops: every back edge requires the recursive answer true for the element at the loop index, and the loop runs
+	// from 0 below Len()/NumField()
+	loopOK := func(hdr *ssa.BasicBlock, accessor, bound string) bool {
+		iff, ok := hdr.Instrs[len(hdr.Instrs)-1].(*ssa.If)
+		if !ok {
+			return false
+		}
+		cmp, ok := iff.Cond.(*ssa.BinOp)
+		if !ok || cmp.Op != token.LSS {
+			return false
+		}
+		bc, ok := cmp.Y.(*ssa.Call)
+		if !ok || calleeFullName(&bc.Call) != "(reflect.Value)."+bound || bc.Call.Args[0] != pv {
+			return false
+		}
+		phi, ok := cmp.X.(*ssa.Phi)
+		if !ok || phi.Block() != hdr {
+			return false
+		}
+		for i, e := range phi.Edges {
+			if hdr.Dominates(hdr.Preds[i]) {
+				bo, okb := e.(*ssa.BinOp)
+				one, ok1 := int64(0), false
+				if okb {
+					one, ok1 = constInt(bo.Y)
+				}
+				if !okb || bo.Op != token.ADD || bo.X != ssa.Value(phi) || !ok1 || one != 1 {
+					return false
+				}
+			} else if c, okc := constInt(e); !okc || c != 0 {
+				return false
+			}
+		}
+		for _, p := range hdr.Preds {
+			if !hdr.Dominates(p) {
+				continue
+			}
+			good := false
+			for _, f := range append(factsAt(p), factsAtEdgeTo(p, hdr)...) {
+				if !f.Truth {
+					continue
+				}
+				c, ok := f.Cond.(*ssa.Call)
+				if !ok || c.Call.StaticCallee() != h || len(c.Call.Args) != 1 {
+					continue
+				}
+				a, ok := c.Call.Args[0].(*ssa.Call)
+				if ok && calleeFullName(&a.Call) == "(reflect.Value)."+accessor && a.Call.Args[0] == pv && len(a.Call.Args) == 2 && a.Call.Args[1] == ssa.Value(phi) {
+					good = true
+				}
+			}
+			if !good {
+				return false
+			}
+		}
+		return true
+	}
+	wayOK := func(pred, blk *ssa.BasicBlock) bool {
+		facts := factsAt(blk)
+		if pred != nil {
+			facts = append(append([]Fact{}, factsAt(pred)...), factsAtEdgeTo(pred, blk)...)
+		}
+		ks := possible(facts)
+		if !ks[kSlice] && !ks[kMap] && !ks[kFunc] && !ks[kInterface] && !ks[kArray] && !ks[kStruct] {
+			return true
+		}
+		// a nil interface value
+		if len(ks) == 1 && ks[kInterface] {
+			for _, f := range facts {
+				if c, okc := f.Cond.(*ssa.Call); okc && f.Truth && calleeFullName(&c.Call) == "(reflect.Value).IsNil" && c.Call.Args[0] == pv {
+					return true
+				}
+			}
+		}
+		// the exit edge of a complete element loop, under the matching kind
+		if pred != nil && len(pred.Succs) == 2 && pred.Succs[1] == blk && reachable(pred.Succs[0], pred) {
+			if len(ks) == 1 && ks[kArray] && loopOK(pred, "Index", "Len") {
+				return true
+			}
+			if len(ks) == 1 && ks[kStruct] && loopOK(pred, "Field", "NumField") {
+				return true
+			}
+		}
+		return false
+	}
+	for _, ret := range allReturns(h) {
+		if len(ret.Results) != 1 {
+			return false, "unexpected result arity in " + w.Name(h)
+		}
+		v := ret.Results[0]
+		if b, ok := constBool(v); ok {
+			if !b {
+				continue
+			}
+			blk := ret.Block()
+			good := true
+			if len(blk.Preds) <= 1 {
+				var pred *ssa.BasicBlock
+				if len(blk.Preds) == 1 {
+					pred = blk.Preds[0]
+				}
+				good = wayOK(pred, blk)
+			} else {
+				for _, p := range blk.Preds {
+					if !wayOK(p, blk) {
+						good = false
+					}
+				}
+			}
+			if !good {
+				return false, w.Name(h) + " answers true at " + w.InstrPos(ret) + " for a kind that can be, or can contain, a slice, map or func, without having walked its elements"
+			}
+			continue
+		}
+		// v.IsNil() || H(v.Elem()) under kind == interface
+		ks := possible(factsAt(ret.Block()))
+		okDyn := false
+		if phi, ok := v.(*ssa.Phi); ok && len(ks) == 1 && ks[kInterface] {
+			okDyn = true
+			for i, e := range phi.Edges {
+				if b, okb := constBool(e); okb {
+					if !b {
+						continue
+					}
+					nilWay := false
+					pred := phi.Block().Preds[i]
+					for _, f := range append(factsAt(pred), factsAtEdgeTo(pred, phi.Block())...) {
+						if c, okc := f.Cond.(*ssa.Call); okc && f.Truth && calleeFullName(&c.Call) == "(reflect.Value).IsNil" && c.Call.Args[0] == pv {
+							nilWay = true
+						}
+					}
+					if !nilWay {
+						okDyn = false
+					}
+				} else if !containedCall(e, "Elem") {
+					okDyn = false
+				}
+			}
+		} else if len(ks) == 1 && ks[kInterface] && containedCall(v, "Elem") {
+			okDyn = true
+		}
+		if !okDyn {
+			return false, w.Name(h) + " returns " + describe(v) + " at " + w.InstrPos(ret) + ": not a recognised walk into the contained value"
+		}
+	}
+	return true, ""
 }
 
 // guardedByComparableLoop: the comparison is dominated by the exit edge of a
